@@ -9,7 +9,7 @@
 //!
 //! B1 payment; B2 multi-asset payment with a native-policy mint (Mary+); B3
 //! spend of two Plutus-locked entries with collateral, redeemers, datum and
-//! script-integrity hash (Alonzo+).
+//! script-integrity hash (Alonzo+); B3m = B3 with map-form redeemers (Conway).
 
 use crate::txlab::*;
 
@@ -103,6 +103,13 @@ pub fn bases() -> Vec<Case> {
         }
         if era.plutus() {
             v.push(b3(era));
+        }
+        if era == Era::Conway {
+            // the same spend with the Conway map encoding of the redeemers
+            let mut m = b3(era);
+            m.base = "B3m-plutus-map-redeemers".into();
+            m.tx.wits.redeemers_map = true;
+            v.push(m);
         }
     }
     v
